@@ -195,7 +195,7 @@ PROPS = {
         "fuzz": [('FuzzC03History', 90)],
         "shards": 12,
         "timeout_quick": 1200,
-        "technique": "stateful property-based testing (rapid): generated population histories with high structural-mutation rates under the sequential executor; an innovation ledger kept by the harness over the whole history is the oracle",
+        "technique": "stateful property-based testing (rapid): generated population histories with high structural-mutation rates under the sequential (and sometimes the parallel) executor; an innovation ledger kept by the harness over the whole history is the oracle; plus operator histories, and structural mutations interleaved by the harness at the shared calls of the innovation record (one meaning per number under every interleaving)",
         "level_text": "Generated epoch histories; after every turnover every gene and node of every organism is entered into a ledger (innovation -> endpoints+flag, node id -> role): a known number must denote the same link, unknown numbers/ids must exceed the maxima before the turnover, "
                       "equal new links must share one number and equal splits one node id within a generation, and the innovation record must be empty afterwards.",
         "level_note": "trusted: the ledger (two maps and two maxima); the split clause identifies a split by (source, target, flag, innovation of the carrier's split gene); parallel runs are covered by C16 for the first two clauses only",
